@@ -76,7 +76,8 @@ func (g G) Type(depth int) cty.Type {
 		}
 		return cty.Tuple(ts)
 	default:
-		return cty.List(cty.Object(map[string]cty.Type{"a": cty.String, "n": cty.Number}))
+		obj := cty.Object(map[string]cty.Type{"a": cty.String, "n": cty.Number})
+		return Pick(g, []cty.Type{cty.List(obj), cty.List(obj), cty.Map(obj), cty.Map(cty.Tuple([]cty.Type{cty.String, cty.Number})), cty.Set(obj)})
 	}
 }
 
